@@ -374,6 +374,9 @@ fn systems(tier: Tier) -> Vec<(String, Sys)> {
     ];
     v.push(("Unicode/Little/2 keys/text alphabet".to_string(), Sys::new(vec!["a", "ソn"], TextArchiveFormat::Unicode, Endian::Little).with_text_msgs()));
     v.push(("ShiftJIS/Little/2 keys/text alphabet".to_string(), Sys::new(vec!["a", "ソn"], TextArchiveFormat::ShiftJIS, Endian::Little).with_text_msgs()));
+    // a key outside the Shift-JIS repertoire: the map must hold it like any other key (only a
+    // serialization may refuse it)
+    v.push(("Unicode/Little/2 keys, one unencodable".to_string(), Sys::new(vec!["a", "é한"], TextArchiveFormat::Unicode, Endian::Little)));
     v.push(("Unicode/Little/3 keys/second live archive interleaved".to_string(), Sys::new(vec!["a", "b", "c"], TextArchiveFormat::Unicode, Endian::Little).with_decoy()));
     v.push(("ShiftJIS/Big/2 keys/second live archive interleaved".to_string(), Sys::new(vec!["a", "b"], TextArchiveFormat::ShiftJIS, Endian::Big).with_decoy()));
     if tier == Tier::Thorough {
@@ -471,6 +474,34 @@ fn explore(ctx: &Ctx) -> Outcome {
         cov.transitions += n;
         cov.extra.insert("wide_single_step_pass".into(), json!({"messages": wide.len(), "transitions": n}));
     }
+    // ONE object through 70 000 set_message calls (a modification counter narrower than the
+    // history shows only here): after every call the flag is set and the entry is the last value
+    {
+        let mut n = 0u64;
+        let r = util::catch(|| -> Option<(usize, String)> {
+            let mut t = TextArchive::new(TextArchiveFormat::Unicode, Endian::Little);
+            let keys = ["k0", "k1", "k2", "k3", "k4"];
+            for i in 0..70_000usize {
+                let k = keys[i % keys.len()];
+                let v = format!("v{}", i);
+                t.set_message(k, &v);
+                if !t.is_dirty() {
+                    return Some((i, format!("after set_message call number {} on one archive is_dirty() is false", i + 1)));
+                }
+                if t.get_message(k).as_deref() != Some(v.as_str()) || t.get_entries().len() != keys.len().min(i + 1) {
+                    return Some((i, format!("after set_message call number {} on one archive get_message({:?}) = {:?}, {} entries", i + 1, k, t.get_message(k), t.get_entries().len())));
+                }
+            }
+            None
+        });
+        match r {
+            Err(p) => o.violate(format!("panic@{}:long-history", p.location), format!("70 000 sets on one archive panicked: {}", p.message), json!({"long_history": true})),
+            Ok(Some((_, msg))) => o.violate("long-history:set_message", msg, json!({"long_history": true})),
+            Ok(None) => n = 70_000,
+        }
+        cov.transitions += n;
+        cov.extra.insert("long_history_on_one_object".into(), json!({"set_message_calls": n}));
+    }
     cov.traces_validated_against_impl = cov.transitions;
     cov.evaluations = cov.transitions;
     cov.distinct_nontrivial = cov.states;
@@ -486,6 +517,19 @@ fn explore(ctx: &Ctx) -> Outcome {
 }
 
 fn replay(ctx: &Ctx, case: &Value) -> Vec<Violation> {
+    if case["long_history"] == true {
+        let mut t = TextArchive::new(TextArchiveFormat::Unicode, Endian::Little);
+        let keys = ["k0", "k1", "k2", "k3", "k4"];
+        for i in 0..70_000usize {
+            let k = keys[i % keys.len()];
+            let v = format!("v{}", i);
+            t.set_message(k, &v);
+            if !t.is_dirty() || t.get_message(k).as_deref() != Some(v.as_str()) {
+                return vec![Violation { sig: "long-history:set_message".into(), summary: format!("after set_message call number {} on one archive: is_dirty() = {}, get_message = {:?}", i + 1, t.is_dirty(), t.get_message(k)), case: case.clone() }];
+            }
+        }
+        return vec![];
+    }
     let hist: Vec<Op> = serde_json::from_value(case["history"].clone()).unwrap_or_default();
     let name = case["system"].as_str().unwrap_or("");
     let mut out = Vec::new();
